@@ -35,9 +35,9 @@ prop("C02", G(RULES),
      paper=["derivative table of DESIGN.md 3.5 (calculus)", "PROD, SUM-EXT (DESIGN.md section 8); LEX is machine-checked (lemmas valSucc ... lexUnsq, lexSq)"],
      expl="Every backward rule (33 constructors, 43 closures) is symbolically executed against the interface contracts of the tensor methods: the rule never fails after an accepted forward call, its result has exactly the operand's shape and is a spent untracked tensor, and (element-wise, relocation and fibre-position rules) its value is upstream times the derivative from the calculus table, with definedness obligations where a finite result is demanded.")
 prop("C03", M(UN + CMP + ["ElMax", "ElMin"] + AR + ["Equals", "Broadcast"]) + ["cputensor.broadcastForBinaryOp", "cputensor.targetBroadcastDims", "validator.ValidateBinaryFuncDimsMatch", "validator.ValidateBroadcastSourceDimsAgainstTargetDims", "validator.ValidateInputDims"],
-     bounded=[("TestElementwise", "cross-check of the proved element-wise recursions and the broadcast generator; stand-in for the assumed contract of equals", "all shapes of rank <= 4 with sizes <= 3 (and every broadcast-compatible pair), values including zeros, negatives, ties and 1e300-scale magnitudes")],
-     paper=["COUNT: a sum of n values in {0,1} is >= n iff all are 1 (Equals)"],
-     expl="Public element-wise operations are proved against the internal operations; the 22 scalar closures are executed symbolically (their bodies are the semantics of the function values); broadcasting is proved from targetBroadcastDims / the Broadcast validator via the lemmas btarget*. The tree recursions (calcData) and the broadcast element generator with initWith.fill are proved as well (Map1/Map2 tree relations, generator protocol); only equals (COUNT) is an assumed contract with a bounded stand-in.")
+     bounded=[("TestElementwise", "cross-check of the proved element-wise recursions, the broadcast generator and equals", "all shapes of rank <= 4 with sizes <= 3 (and every broadcast-compatible pair), values including zeros, negatives, ties and 1e300-scale magnitudes")],
+     paper=[],
+     expl="Public element-wise operations are proved against the internal operations; the 22 scalar closures are executed symbolically (their bodies are the semantics of the function values); broadcasting is proved from targetBroadcastDims / the Broadcast validator via the lemmas btarget*. The tree recursions (calcData) and the broadcast element generator with initWith.fill are proved as well (Map1/Map2 tree relations, generator protocol); and so is equals (COUNT: the fold of + over a tree of 0/1 leaves counts the one-leaves; that count reaches the number of leaves iff every leaf is 1).")
 prop("C04", M(["MatMul", "Dot", "Transpose"]) + ["cputensor.broadcastForMatMul", "cputensor.broadcastForBinaryOp", "cputensor.matMulDims", "cputensor.dotDims", "cputensor.transposeDims", "validator.ValidateMatMulDims", "validator.ValidateDotProductDims", "validator.ValidateTransposeDims"],
      bounded=[("TestLinalg", "cross-check of the proved matMul / dot / transpose (element values, swapped indices) and the identities A.I = A, (A.B)^T = B^T.A^T", "ranks 1..4, m,n,k in 1..3, every broadcast-compatible batch-shape pair with sizes <= 2")],
      paper=["SUM-EXT: sums of products depend only on the elements of the operands", "matrix identities follow from the element formula (algebra)"],
